@@ -35,6 +35,9 @@ func (e *eng) evalCase(c Case) error {
 		return e.evalRR(c)
 	case "random":
 		return e.evalRandom(c)
+	case "udprt":
+		e.reportUDPRT(c, runUDPRealtime(c))
+		return nil
 	}
 	return fmt.Errorf("unknown engine %q", c.Engine)
 }
@@ -55,6 +58,9 @@ func (e *eng) evalGroups(c Case) error {
 	rep.Count("groups:" + bucketRounds(len(c.Rounds)))
 	if c.effInterval() <= T*int64(n) {
 		rep.Count("groups:interval-shorter-than-a-round")
+	}
+	if c.effConcurrency() < n {
+		rep.Count("groups:concurrency<n(queued-probes)")
 	}
 	if obs.Err != "" {
 		rep.Case(c.sig(), false)
@@ -178,12 +184,13 @@ func (e *eng) evalGroups(c Case) error {
 				lines = append(lines, "finish")
 				refs = append(refs, ref{k, 0})
 			} else {
+				// the whole round on the clock: worker pool of the effective concurrency, per-probe deadlines
 				toks := make([]string, n)
 				for i, a := range row {
-					toks[i] = outcomeTok(a)
+					toks[i] = scriptTok(a)
 				}
-				lines = append(lines, "round "+strings.Join(toks, " "))
-				refs = append(refs, ref{k, 0})
+				lines = append(lines, fmt.Sprintf("tround %d %s", c.effConcurrency(), strings.Join(toks, " ")))
+				refs = append(refs, ref{k, 2})
 			}
 		}
 		out, err := e.ask(lines)
@@ -193,7 +200,26 @@ func (e *eng) evalGroups(c Case) error {
 		var modelAfter []int
 		bad := ""
 		for j, r := range refs {
-			v, err := strconv.Atoi(out[j])
+			ans := out[j]
+			if r.kind == 2 {
+				// "<sel> <start_0,...>": compare the instants at which the probes started (relative to the first one)
+				selTok, startsTok, _ := strings.Cut(ans, " ")
+				ans = selTok
+				first := obs.Starts[r.round][0]
+				for _, s := range obs.Starts[r.round] {
+					first = min(first, s)
+				}
+				impl := make([]string, n)
+				for i, s := range obs.Starts[r.round] {
+					impl[i] = strconv.FormatInt(s-first, 10)
+				}
+				if got := strings.Join(impl, ","); got != startsTok && bad == "" {
+					bad = fmt.Sprintf("round %d: probes started at +[%s] ns, the model's dispatch (c=%d) starts them at +[%s]", r.round, got, c.effConcurrency(), startsTok)
+				}
+				r.kind = 0
+				rep.Count("groups:rounds-with-probe-start-times-compared")
+			}
+			v, err := strconv.Atoi(ans)
 			if err != nil {
 				return fmt.Errorf("driver answered %q to %q", out[j], lines[j])
 			}
@@ -338,6 +364,88 @@ func (e *eng) evalRandom(c Case) error {
 	return nil
 }
 
+// ---------- UDP deadline path, real time ----------
+
+func (e *eng) reportUDPRT(c Case, obs rtObs) {
+	rep := e.rep
+	rep.Count("udprt:" + c.Policy)
+	pre := "udp-deadline:" + c.Policy + ":"
+	if obs.Err != "" {
+		rep.Case(c.sig(), false)
+		if strings.Contains(obs.Err, "did not stop at its deadline") {
+			e.fail(c, pre+"probe-outlives-deadline", obs.Err)
+		} else {
+			rep.Diverge(common.Divergence{Engine: "udprt", Case: c, Impl: obs.Err, Model: "a group that runs"})
+		}
+		return
+	}
+	if obs.Inconclusive != "" {
+		rep.Count("udprt:inconclusive(overloaded)")
+		rep.Case(c.sig(), false)
+		return
+	}
+	silent := 0
+	T := c.effTimeout()
+	for _, d := range obs.Durations {
+		a := c.Rounds[d.Round][d.Client]
+		if !a.OK && a.Mode == 3 {
+			silent++
+			if d.Ns < T-int64(20_000_000) {
+				e.fail(c, pre+"silent-probe-ends-early", fmt.Sprintf("round %d client %d: nothing answered, yet the probe ended after %d ns, the timeout is %d ns counted from the probe's own start", d.Round, d.Client, d.Ns, T))
+			}
+		}
+	}
+	if silent > 0 {
+		rep.Count("udprt:cases-with-silent-probes")
+	}
+	rep.Case(c.sig(), silent > 0)
+	if obs.Initial != 0 {
+		e.fail(c, pre+"initial", fmt.Sprintf("before the first round the group hands out client %d", obs.Initial))
+	}
+	for k, sel := range obs.After {
+		ok := false
+		for _, a := range obs.Allowed[k] {
+			ok = ok || a == sel
+		}
+		if sel < 0 || sel >= c.N {
+			e.fail(c, pre+"non-member", fmt.Sprintf("after round %d the group hands out client %d", k, sel))
+		} else if !ok {
+			e.fail(c, pre+"not-best", fmt.Sprintf("after round %d (a silent client's probe ends at its deadline and counts as a failure / the timeout) the group hands out client %d; the statement allows %v", k, sel, obs.Allowed[k]))
+			break
+		}
+	}
+	// the model on the same history: its choice must be among the allowed ones too (answering clients get latency 0)
+	if e.drv != nil {
+		lines := []string{fmt.Sprintf("new %s %d %d", modelPolicy[c.Policy], c.N, T)}
+		for _, row := range c.Rounds {
+			toks := make([]string, c.N)
+			for i, a := range row {
+				toks[i] = scriptTok(a)
+				if !a.OK && a.Mode == 0 {
+					toks[i] = "x0"
+				}
+			}
+			lines = append(lines, fmt.Sprintf("tround %d %s", c.effConcurrency(), strings.Join(toks, " ")))
+		}
+		if out, err := e.ask(lines); err == nil {
+			for k := range c.Rounds {
+				selTok, _, _ := strings.Cut(out[k+1], " ")
+				v, _ := strconv.Atoi(selTok)
+				ok := false
+				for _, a := range obs.Allowed[k] {
+					ok = ok || a == v
+				}
+				if !ok {
+					rep.Diverge(common.Divergence{Engine: "udprt", Case: c, Impl: obs.After, Model: out[1:], Note: fmt.Sprintf("after round %d the model serves %d, allowed %v", k, v, obs.Allowed[k])})
+					break
+				}
+			}
+		}
+	}
+	rep.Sample(map[string]any{"case": shortCase(c), "after": obs.After, "allowed": obs.Allowed})
+	rep.TracesValidated++
+}
+
 // ---------- budgets ----------
 
 func (e *eng) generateAndRun() error {
@@ -349,6 +457,33 @@ func (e *eng) generateAndRun() error {
 	nRandom := o.Budget(60, 600)
 	idx := uint64(0)
 	next := func() *common.Rng { idx++; return r.Fork(idx) }
+	// the real-time UDP cases run beside the fake-clock engines (they mostly sleep) and are reported at the end
+	nRT := o.Budget(6, 40)
+	if os.Getenv(onlyEnv) == "race" {
+		nRT = 4
+	}
+	type rtRes struct {
+		c   Case
+		obs rtObs
+	}
+	rtCh := make(chan rtRes, nRT)
+	go func() {
+		sem := make(chan struct{}, 10)
+		for i := 0; i < nRT; i++ {
+			c := genUDPRT(r.Fork(uint64(1)<<40 + uint64(i)))
+			sem <- struct{}{}
+			go func() {
+				rtCh <- rtRes{c, runUDPRealtime(c)}
+				<-sem
+			}()
+		}
+	}()
+	defer func() {
+		for i := 0; i < nRT; i++ {
+			x := <-rtCh
+			e.reportUDPRT(x.c, x.obs)
+		}
+	}()
 	if os.Getenv(onlyEnv) == "race" {
 		// the race-instrumented pass: heavy concurrent round-robin, a slice of everything else
 		idx = 1 << 32
